@@ -92,3 +92,15 @@ CALLS += [
     dict(_IC, where="assign:atol", call="1e-08", why="absolute tolerance"),
     dict(_IC, where="assign:rtol", call="1e-05", why="relative tolerance"),
 ]
+
+# C07: the coordinate grids handed to the block function are chunked exactly like the data, and the block function is the one
+# whose soundness is proved for any block (C06 glue contract): a chunk's non-NaN outputs name real targets of its padded block
+_PP = dict(module="xrspatial/proximity.py", function="_process", props=("C07",))
+CALLS += [
+    dict(_PP, where="assign:xs", call="da.from_array(xs, chunks=raster.chunks)", why="x grid chunk-aligned with the data"),
+    dict(_PP, where="assign:ys", call="da.from_array(ys, chunks=raster.chunks)", why="y grid chunk-aligned with the data"),
+    dict(_PP, where="assign:xs", call="np.tile(raster[x].data, raster.shape[0]).reshape(raster.shape)", why="x coordinate of every cell (columns)"),
+    dict(_PP, where="assign:ys", call="np.repeat(raster[y].data, raster.shape[1]).reshape(raster.shape)", why="y coordinate of every cell (rows)"),
+    dict(_PP, where="assign:result", call="_process_dask(raster, xs, ys)", why="dask path"),
+    dict(_PP, where="assign:result", call="_process_numpy(raster.data, xs, ys)", why="numpy path: the same block function on the whole raster"),
+]
